@@ -188,13 +188,15 @@ impl<'a> AsciiDecLit<'a> {
     /// an int and accumulate it into `exp`.
     // The function uses wrapping_mul and wrapping_add, but overflow is
     // prevented by limiting the result to a value which will cause an error
-    // later!
+    // later (it can not be compensated by the fractional digits of any
+    // literal that fits into memory)!
     fn accum_exp(&mut self, exp: &mut isize) -> usize {
+        const EXP_LIMIT: isize = isize::MAX / 100;
         let start_len = self.len();
         while let Some(c) = self.first() {
             let d = c.wrapping_sub(b'0');
             if d < 10 {
-                if *exp < 0x1000000 {
+                if *exp < EXP_LIMIT {
                     *exp = exp.wrapping_mul(10).wrapping_add(d as isize);
                 }
                 // Safety: safe because of call to self.first above
@@ -299,9 +301,6 @@ pub fn str_to_dec(lit: &str) -> Result<(i128, isize), ParseDecimalError> {
             }
             if n_exp_digits == 0 {
                 return Err(ParseDecimalError::Invalid);
-            }
-            if n_exp_digits > 2 {
-                return Err(ParseDecimalError::FracDigitLimitExceeded);
             }
         } else {
             return Err(ParseDecimalError::Invalid);
